@@ -25,3 +25,4 @@ def rules(ctx):
     S.c01_r8_open_recovery(ctx)
     S.survey_residue_rules(ctx)
     S.restore_commit_rules(ctx)
+    S.create_only_when_empty_rules(ctx)
